@@ -94,8 +94,50 @@ class Recon:
 
     def run(self):
         clo = self.rule['closure']
+        # roles of generated locals, by data flow (never by the names the generator happens to use):
+        #   id -> ('val', clause)    element of a lookup result (`__val`), also after `.tuple_of_borrowed()`
+        #         ('jcols', clause)  joined key columns of the outer clause of a simple join
+        #         ('cl1it', clause)  iterator over the outer clause's values   ('matching', clause) lookup result iterator
+        #         ('row', clause)    reference to a lattice row  ('guard',) emptiness flag  ('aggop', ..) / ('aggargs', ..)
+        self.roles = {}
         plans = self.rest(clo['b'], [], None)
         return plans
+
+    def role(self, n):
+        l = local_of(n) if n is not None else None
+        return self.roles.get(l['id']) if l is not None else None
+
+    def _siblings_push_row(self, stmts, i, lid):
+        """do the statements following stmts[i] in this block (not descending into closures) append a tuple built from local `lid`
+        to a relation row store?  (= `let X = (head args)` is the start of a head update)"""
+        def visit(n):
+            n_ = n
+            if isinstance(n_, dict):
+                if n_.get('k') == 'closure':
+                    return False
+                if n_.get('k') == 'mcall' and n_['m'] == 'push' and self_field(n_['r'], self.p.self_ids) in self.p.relations:
+                    for x, _ in walk(n_['a'][0] if n_['a'] else {}):
+                        if x.get('k') == 'path' and x.get('res') == 'local' and x['id'] == lid:
+                            return True
+                from facts import children as ch
+                return any(visit(c) for c in ch(n_))
+            return False
+        for s in stmts[i + 1:]:
+            if s['k'] == 'item':
+                continue
+            if visit(s):
+                return True
+        return False
+
+    def _is_agg_let(self, stmts, i):
+        s = stmts[i]
+        if s['k'] != 'let' or 'i' not in s or s['p'].get('k') != 'bind' or not operand(self.pg, self.sc, s['i']):
+            return False
+        nxt = [x for x in stmts[i + 1:] if x['k'] != 'item']
+        if not nxt or nxt[0]['k'] != 'let' or 'i' not in nxt[0]:
+            return False
+        g = strip(nxt[0]['i'])
+        return g.get('k') == 'mcall' and g['m'] == 'index_get' and (local_of(g['r']) or {}).get('id') == s['p']['id']
 
     # the generator nests the rest of the rule inside the current construct; `items` is the prefix collected so far
     def rest(self, n, items, cur):
@@ -117,21 +159,40 @@ class Recon:
                 pat = s['p']
                 init = s.get('i')
                 name = pat.get('n') if pat.get('k') == 'bind' else None
-                if name == 'any_rel_empty':
+                pid = pat.get('id') if pat.get('k') == 'bind' else None
+                # emptiness guard: a bool built from is_empty() of index operands
+                if pid is not None and init is not None and (self.cr.ty(pat) == 'bool') and any(
+                        x.get('k') == 'mcall' and x['m'] == 'is_empty' and operand(self.pg, self.sc, x['r']) for x, _ in walk(init)):
+                    self.roles[pid] = ('guard',)
                     items.append({'t': 'guard', 'node': init}); i += 1; continue
-                if name == '__new_row':
+                # head update: `let X = (head args);` whose value is pushed by the following statements of this block
+                if pid is not None and init is not None and strip(init).get('k') == 'tup' and self._siblings_push_row(stmts, i, pid):
                     return self.heads(stmts, i, items)
-                if name in ('__aggregated_rel',):
+                if self._is_agg_let(stmts, i):
                     return self.agg(stmts, i, items, cur)
-                # column binding:  let x: &T = __val.j  /  = &__row.c  /  = __cl1_joined_columns.i
+                # generated helper lets: re-borrow of a lookup element / lattice row dereference
+                if pid is not None and init is not None:
+                    i0 = strip(init)
+                    while i0.get('k') == 'addr':
+                        i0 = strip(i0['e'])
+                    if i0.get('k') == 'mcall' and i0['m'] == 'tuple_of_borrowed' and self.role(i0['r']):
+                        self.roles[pid] = self.role(i0['r']); i += 1; continue
+                    # &_self.rel[*val](.read().unwrap())(.clone())
+                    j0 = i0
+                    while j0.get('k') == 'mcall' and j0['m'] in ('clone', 'unwrap', 'read'):
+                        j0 = strip(j0['r'])
+                    if j0.get('k') == 'index' and self_field(j0['e'], self.p.self_ids) in self.p.relations:
+                        ix = strip(j0['i'])
+                        while ix.get('k') == 'unary' and ix['op'] == 'deref':
+                            ix = strip(ix['e'])
+                        r_ = self.role(ix)
+                        if r_ and r_[0] == 'val':
+                            self.roles[pid] = ('row', r_[1]); i += 1; continue
+                # column binding:  let x: &T = <val>.j  /  = &<row>.c  /  = <joined columns>.i
                 col = self.column_binding(init, cur)
                 if col is not None and name is not None:
-                    cur['cols'][col] = ('bind', pat['id'], name)
-                    i += 1; continue
-                if name in ('__val', '__row', '__cl1_joined_columns', '__matching', '__agg_args', '__lattice_key', '__existing_ind_in_new',
-                            '__new_has_ind', '__new_row_ind'):
-                    i += 1; continue
-                if name == 'cl1_val' or name == '__val':
+                    col, cl_ = col
+                    cl_['cols'][col] = ('bind', pat['id'], name)
                     i += 1; continue
                 # a user `let pat = expr`
                 items.append({'t': 'let', 'pat': pat, 'e': init, 'binds': [(b['n'], b['id']) for b in pat_bindings(pat)]})
@@ -146,27 +207,28 @@ class Recon:
         return [pl]
 
     def column_binding(self, init, cur):
-        if init is None or cur is None:
+        """-> (column, clause) if `init` projects a column out of a generated local with a role"""
+        if init is None:
             return None
         e = strip(init)
         while e.get('k') == 'addr':
             e = strip(e['e'])
         if e.get('k') != 'field' or not e['n'].isdigit():
             return None
-        base = local_of(e['e'])
-        if base is None or not base['n'].startswith('__') and base['n'] not in ('cl1_val',):
+        r = self.role(e['e'])
+        if not r or len(r) < 2:
             return None
+        kind, cl = r[0], r[1]
         j = int(e['n'])
-        bn = base['n']
-        if bn == '__row':
-            return j
-        if bn == '__cl1_joined_columns':
-            return cur['key_cols'][j] if j < len(cur['key_cols']) else None
-        if bn in ('__val', 'cl1_val'):
-            comp = cur['val_cols']
+        if kind == 'row':
+            return (j, cl)
+        if kind == 'jcols':
+            return (cl['key_cols'][j], cl) if j < len(cl['key_cols']) else None
+        if kind == 'val':
+            comp = cl['val_cols']
             if comp == 'rowid':
                 return None
-            return comp[j] if j < len(comp) else None
+            return (comp[j], cl) if j < len(comp) else None
         return None
 
     def new_clause(self, op_expr, key_expr, node, keyed=True):
@@ -198,7 +260,7 @@ class Recon:
         if k == 'if':
             c = strip(e['c'])
             # if !any_rel_empty { .. }
-            if c.get('k') == 'unary' and c['op'] == 'not' and (local_of(c['e']) or {}).get('n') == 'any_rel_empty' and 'el' not in e:
+            if c.get('k') == 'unary' and c['op'] == 'not' and self.role(c['e']) == ('guard',) and 'el' not in e:
                 return self.rest(e['th'], items, cur)
             # run-time plan choice
             if c.get('k') == 'binary' and c['op'] == '<=' and all(strip(x).get('k') == 'mcall' and strip(x)['m'] == 'len_estimate' for x in (c['l'], c['r'])) and 'el' in e:
@@ -213,16 +275,24 @@ class Recon:
                 pat, init = c['p'], strip(c['i'])
                 # generated lookup: if let Some(__matching) = OP.index_get(&KEY) { __matching.for_each(|__val| ..) }
                 binds = pat_bindings(pat)
-                if len(binds) == 1 and binds[0]['n'] == '__matching' and init.get('k') == 'mcall' and init['m'] in ('index_get', 'c_index_get'):
+                gen_lookup = (len(binds) == 1 and init.get('k') == 'mcall' and init['m'] in ('index_get', 'c_index_get')
+                              and bool(operand(self.pg, self.sc, init['r'])) and 'el' not in e)
+                if gen_lookup:
+                    mid = binds[0]['id']
                     if cur is not None and cur.get('pending_join'):
                         # second clause of a simple join
                         cl2 = self.new_clause(init['r'], init['a'][0], init)
                         cur['pending_join'] = False
+                        self.roles[mid] = ('matching', cl2)
                         return self.simple_join_inner(e['th'], items, cur, cl2)
                     cl = self.new_clause(init['r'], init['a'][0], init)
+                    self.roles[mid] = ('matching', cl)
                     body = strip(e['th'])
                     fe = self.single_call(body, 'for_each')
+                    if self.role(fe['r']) != ('matching', cl):
+                        self.fail('lookup result is not iterated', fe)
                     clo = strip(fe['a'][0])
+                    self._bind_closure_param(clo, ('val', cl))
                     return self.rest(clo['b'], items + [cl], cl)
                 if 'el' in e:
                     self.fail('user if-let with else', e)
@@ -240,6 +310,11 @@ class Recon:
                 cl1 = self.new_clause(recv['r'], None, recv, keyed=False)
                 cl1['pending_join'] = True
                 cl1['simple_join'] = 1
+                ps = clo['ps']
+                if len(ps) != 1 or ps[0].get('k') != 'tup' or len(ps[0]['ps']) != 2 or any(q.get('k') != 'bind' for q in ps[0]['ps']):
+                    self.fail('simple join closure does not take (joined columns, values)', e)
+                self.roles[ps[0]['ps'][0]['id']] = ('jcols', cl1)
+                self.roles[ps[0]['ps'][1]['id']] = ('cl1it', cl1)
                 return self.rest(clo['b'], items + [cl1], cl1)
             self.fail('for_each on an unexpected receiver', e)
         if k == 'match' and e.get('src') == 'for':
@@ -266,6 +341,11 @@ class Recon:
             return self.rest(a['b'], items + [item], cur)
         self.fail('unexpected construct of kind %s in a rule body' % k, e)
 
+    def _bind_closure_param(self, clo, role):
+        ps = clo.get('ps') or []
+        if len(ps) == 1 and ps[0].get('k') == 'bind':
+            self.roles[ps[0]['id']] = role
+
     def single_call(self, body, meth):
         b = strip(body)
         while b.get('k') == 'block':
@@ -284,7 +364,10 @@ class Recon:
         """inside `if let Some(__matching) = OP2.index_get(&KEY2)`:
            __cl1_tuple_indices.for_each(|cl1_val| { ASSIGNS1; CONDS1..; __matching.clone().for_each(|__val| { ASSIGNS2; CONDS2 -> rest }) })"""
         fe = self.single_call(then, 'for_each')
+        if self.role(fe['r']) != ('cl1it', cl1):
+            self.fail('the values of the outer clause of a simple join are not iterated', fe)
         clo = strip(fe['a'][0])
+        self._bind_closure_param(clo, ('val', cl1))
         # cl1's value columns are bound in this closure, then cl1's conditions, then the inner for_each over cl2's matches
         return self.sj_body(clo['b'], items, cl1, cl2)
 
@@ -300,11 +383,24 @@ class Recon:
             if s['k'] == 'let':
                 pat = s['p']
                 name = pat.get('n') if pat.get('k') == 'bind' else None
+                i0 = strip(s.get('i') or {})
+                while i0.get('k') == 'addr':
+                    i0 = strip(i0['e'])
+                if pat.get('k') == 'bind' and i0.get('k') == 'mcall' and i0['m'] == 'tuple_of_borrowed' and self.role(i0['r']):
+                    self.roles[pat['id']] = self.role(i0['r']); continue
+                j0 = i0
+                while j0.get('k') == 'mcall' and j0['m'] in ('clone', 'unwrap', 'read'):
+                    j0 = strip(j0['r'])
+                if pat.get('k') == 'bind' and j0.get('k') == 'index' and self_field(j0['e'], self.p.self_ids) in self.p.relations:
+                    ix = strip(j0['i'])
+                    while ix.get('k') == 'unary' and ix['op'] == 'deref':
+                        ix = strip(ix['e'])
+                    r_ = self.role(ix)
+                    if r_ and r_[0] == 'val':
+                        self.roles[pat['id']] = ('row', r_[1]); continue
                 col = self.column_binding(s.get('i'), cl1)
                 if col is not None and name:
-                    cl1['cols'][col] = ('bind', pat['id'], name); continue
-                if name and (name.startswith('__') or name == 'cl1_val'):
-                    continue
+                    col[1]['cols'][col[0]] = ('bind', pat['id'], name); continue
                 items.append({'t': 'let', 'pat': pat, 'e': s['i'], 'binds': [(b['n'], b['id']) for b in pat_bindings(pat)]})
                 continue
             e = strip(s['e'])
@@ -312,8 +408,9 @@ class Recon:
                 r = strip(e['r'])
                 if r.get('k') == 'mcall' and r['m'] == 'clone':
                     r = strip(r['r'])
-                if (local_of(r) or {}).get('n') == '__matching':
+                if self.role(r) == ('matching', cl2):
                     clo = strip(e['a'][0])
+                    self._bind_closure_param(clo, ('val', cl2))
                     return self.rest(clo['b'], items + [cl2], cl2)
             if e.get('k') == 'if':
                 c = strip(e['c'])
@@ -345,13 +442,29 @@ class Recon:
                 clo = x; break
         if clo is None:
             self.fail('aggregation without argument closure', mp)
+        self._bind_closure_param(clo, ('val', cl))
         body = strip(clo['b'])
         bstm = body['ss'] if body.get('k') == 'block' else []
         for s in bstm:
             if s['k'] == 'let' and s['p'].get('k') == 'bind':
+                i0 = strip(s.get('i') or {})
+                while i0.get('k') == 'addr':
+                    i0 = strip(i0['e'])
+                if i0.get('k') == 'mcall' and i0['m'] == 'tuple_of_borrowed' and self.role(i0['r']):
+                    self.roles[s['p']['id']] = self.role(i0['r']); continue
+                j0 = i0
+                while j0.get('k') == 'mcall' and j0['m'] in ('clone', 'unwrap', 'read'):
+                    j0 = strip(j0['r'])
+                if j0.get('k') == 'index' and self_field(j0['e'], self.p.self_ids) in self.p.relations:
+                    ix = strip(j0['i'])
+                    while ix.get('k') == 'unary' and ix['op'] == 'deref':
+                        ix = strip(ix['e'])
+                    r_ = self.role(ix)
+                    if r_ and r_[0] == 'val':
+                        self.roles[s['p']['id']] = ('row', r_[1]); continue
                 col = self.column_binding(s.get('i'), cl)
                 if col is not None:
-                    cl['cols'][col] = ('bind', s['p']['id'], s['p']['n'])
+                    cl['cols'][col[0]] = ('bind', s['p']['id'], s['p']['n'])
         tail = strip(body['e']) if body.get('k') == 'block' and 'e' in body else body
         bound = []
         if tail.get('k') == 'tup':
@@ -376,14 +489,14 @@ class Recon:
             s = stmts[j]
             if s['k'] == 'item':
                 j += 1; continue
-            if s['k'] == 'let' and s['p'].get('k') == 'bind' and s['p']['n'] == '__new_row':
+            if s['k'] == 'let' and s['p'].get('k') == 'bind' and 'i' in s and strip(s['i']).get('k') == 'tup' and self._siblings_push_row(stmts, j, s['p']['id']):
                 row = strip(s['i'])
-                if row.get('k') != 'tup':
-                    self.fail('head row is not a tuple', row)
-                # the relation: first push / join_mut target among the following statements up to the next __new_row
+                # the relation: first push among the following statements up to the next head row
                 rel = None
                 k2 = j + 1
-                while k2 < len(stmts) and not (stmts[k2]['k'] == 'let' and stmts[k2]['p'].get('k') == 'bind' and stmts[k2]['p']['n'] == '__new_row'):
+                def is_row_let(q, qi):
+                    return q['k'] == 'let' and q['p'].get('k') == 'bind' and 'i' in q and strip(q['i']).get('k') == 'tup' and self._siblings_push_row(stmts, qi, q['p']['id'])
+                while k2 < len(stmts) and not is_row_let(stmts[k2], k2):
                     for x, _ in walk(stmts[k2]):
                         if x.get('k') == 'mcall' and x['m'] == 'push':
                             f = self_field(x['r'], self.p.self_ids)
@@ -522,6 +635,13 @@ def _validate_seq(pg, sc, plan, rule, seq, cr):
                 if 'v' in a or 'c' in a or 'e' in a or 'pat' in a:
                     raise Mismatch('%s: column %d (`%s`) is neither used as key nor bound' % (what, col, list(a.values())[0]))
                 continue
+            if 'v' in a and a['v'] not in env and t[0] == 'key':
+                # an identifier that no item of the rule binds: a static / const / captured local, i.e. a constant key
+                match_expr(t[4], a['v'], '%s column %d (free identifier)' % (what, col), key=True)
+                for n_, bid_ in locals_in(t[4]):
+                    if bid_ in bound_ids:
+                        raise Mismatch('%s: column %d should be the outer identifier `%s` but refers to a rule variable' % (what, col, a['v']))
+                continue
             if 'v' in a:
                 v = a['v']
                 if t[0] == 'bind':
@@ -641,7 +761,12 @@ def _validate_seq(pg, sc, plan, rule, seq, cr):
                     continue
                 if t is None or t[0] != 'key':
                     raise Mismatch('aggregation: column %d (`%s`) is not part of the lookup key' % (col, list(a.values())[0]))
-                if 'v' in a:
+                if 'v' in a and a['v'] not in env:
+                    match_expr(t[4], a['v'], 'aggregation column %d (free identifier)' % col, key=True)
+                    for n_, bid_ in locals_in(t[4]):
+                        if bid_ in bound_ids:
+                            raise Mismatch('aggregation: column %d should be the outer identifier `%s` but refers to a rule variable' % (col, a['v']))
+                elif 'v' in a:
                     if t[1] != 'local':
                         raise Mismatch('aggregation: column %d should be variable `%s`' % (col, a['v']))
                     use_var(a['v'], t[2])
